@@ -6,7 +6,7 @@ RULE = ("correspondence: merger on Array<level-1> x level-1 pairs (the arms that
         "pairs; from_sources on h, h+[d], h+[d,d], h+[d,d,d] for random histories h with d inserted at a random position. "
         "oracle on the implementation: with d in h, from_sources(h+[d]*2) == from_sources(h+[d]*1) == from_sources(h+[d]*3) "
         "(syntactic), Display length constant in k, and meaning(from_sources(h+[d])) == meaning(from_sources(h)) by witness "
-        "documents of either side validated by Sem.mem. non-trivial = history with >=2 distinct documents whose result is a "
+        "documents of either side validated by Sem.mem; the same meaning test for h+r with r ANY sequence over the documents of h (theorem C09_readd_any). non-trivial = history with >=2 distinct documents whose result is a "
         "container; distinct = distinct history")
 ASSUMPTIONS = ["documents rendered canonically",
                "the theorem C09_readd covers every history and every position of d; the run-time part ties the model's "
@@ -80,6 +80,39 @@ def run(ctx):
     ctx.notes["histories"] = len(hs)
     ctx.notes["representation_changed_on_first_readd"] = flips
     ctx.notes["meaning_witness_checks"] = len(q)
+    # ---- C09_readd_any: ANY re-additions of documents already among the sources (several, interleaved, any order)
+    # never fail and never change which documents the shape admits
+    hr = []
+    for h, d in hs[:: (2 if ctx.tier == "quick" else 1)]:
+        if len(h) >= 2:
+            r = [ctx.rng.choice(h) for _ in range(ctx.rng.choice([2, 3, 4, 6]))]
+            hr.append((h, r))
+    l2 = []
+    for h, r in hr:
+        l2 += ["from_sources\t" + "\t".join(h), "from_sources\t" + "\t".join(h + r)]
+    o2, _ = ctx.correspond(l2, "from_sources on h and h+r, r any sequence over the documents of h",
+                           lambda l, r: len(set(l.split("\t")[1:])) >= 2 and r[3:4] in "ATUO")
+    sh2 = {r[3:]: parse_sh(r[3:]) for r in o2 if r.startswith("OK ")}
+    wit2 = vlib.validated_witnesses(list(sh2.values()), cap=5)
+    q2, m2 = [], []
+    for i, (h, r) in enumerate(hr):
+        a0, a1 = o2[2 * i], o2[2 * i + 1]
+        if not a0.startswith("OK "):
+            continue            # invalid history: outside the quantifier
+        if not a1.startswith("OK "):
+            ctx.fail("re-adding documents that are already among the sources makes inference fail", l2[2 * i + 1], a1)
+            continue
+        if a1 != a0:
+            for w in wit2[a1[3:]]:
+                q2.append("mem\t%s\t%s" % (w, a0[3:])); m2.append((l2[2 * i + 1], w, a0, a1))
+            for w in wit2[a0[3:]]:
+                q2.append("mem\t%s\t%s" % (w, a1[3:])); m2.append((l2[2 * i + 1], w, a1, a0))
+    for (l, w, x, y), ok in zip(m2, vlib.model_bools(q2)):
+        if not ok:
+            ctx.fail("re-adding several sources (interleaved) changed which documents the shape admits", l,
+                     {"document": w, "rejected by": x, "admitted by": y})
+    ctx.notes["interleaved_readd_histories"] = len(hr)
+    ctx.notes["interleaved_readd_witness_checks"] = len(q2)
     # long repetition: growth must be bounded
     for h, d in [(["[1]", "[1,s]"], "[1,s]"), (["[1,s]", "[[],[]]"], "[[],[]]"), (["[1,s]", "[n,n]"], "[n,n]"),
                  (["{61:[1]}", "{61:[1,s]}"], "{61:[1,s]}"), (["[[1],[1,s]]"], "[[1,s],[1]]")]:
